@@ -24,6 +24,40 @@ TRUSTED_BASE = [
 ]
 
 
+def _ast_digest(path):
+    """sha1 of the docstring-free AST of a source file (comments and formatting do not matter)."""
+    import ast
+    try:
+        tree = ast.parse(open(path).read())
+    except Exception:
+        return "unparsable"
+    for node in ast.walk(tree):
+        if isinstance(node, (ast.FunctionDef, ast.AsyncFunctionDef, ast.ClassDef, ast.Module)):
+            b = node.body
+            if b and isinstance(b[0], ast.Expr) and isinstance(getattr(b[0], "value", None), ast.Constant) and isinstance(b[0].value.value, str):
+                node.body = b[1:] or [ast.Pass()]
+    return hashlib.sha1(ast.dump(tree).encode()).hexdigest()
+
+
+def sentinel(pid):
+    """Source-change sentinel (DESIGN §3A.3): which of the property's anchor files differ from the pinned tree.
+    A change proves nothing and is not an obligation; it only makes the correspondence run at thorough size."""
+    repo = os.environ.get("VERIF_REPO", "/repo")
+    files = []
+    for l in open(os.path.join(VERIF, "properties.jsonl")):
+        p = json.loads(l)
+        if p["id"] == pid:
+            files = p["anchors"]["files"]
+    pin_path = os.path.join(VERIF, "harness", "sentinel.json")
+    pinned = json.load(open(pin_path)) if os.path.exists(pin_path) else {}
+    changed = []
+    for f in files:
+        full = os.path.join(repo, f)
+        if os.path.isfile(full) and _ast_digest(full) != pinned.get(f):
+            changed.append(f)
+    return changed
+
+
 def load_findings():
     p = os.path.join(VERIF, "known_findings.json")
     out = []
@@ -120,7 +154,9 @@ def main(argv=None):
     n_corpus = len(lines)
     for f in findings:                                        # witnesses of known/fixed findings run every time
         lines.append(f["witness"])
-    lines += list(mod.gen(rng, tier))
+    changed_sources = sentinel(pid)
+    gen_tier = "thorough" if (changed_sources and not os.environ.get("VERIF_NO_ESCALATE")) else tier
+    lines += list(mod.gen(rng, gen_tier))
     outs = run_cases(mod, lines)
     model_line = getattr(mod, "model_line", lambda l: l)
     model_outs = leanside.drive(pid, [model_line(l) for l in lines]) if st["model_ok"] else None
@@ -234,7 +270,7 @@ def main(argv=None):
             "disagreements": len(disagreements), "corpus_cases": n_corpus,
             "op_distribution": dist, "result_distribution": errkinds,
             "gen_changed": st.get("gen", {}).get("changed", []),
-            "helpers_changed": st.get("gen", {}).get("sentinel_changed", []),
+            "helpers_changed": changed_sources, "generator_tier": gen_tier,
             "known_findings_reconfirmed": reconfirmed,
             "lean_failures": st["failures"], "build_s": st.get("build_s"),
             "not_yet_proved": getattr(mod, "NOT_YET_PROVED", []),
